@@ -21,7 +21,7 @@ CORPUS = os.path.join(VERIF, "corpus", "vmd")
 # abstract module of Vmd.tla -> corpus templates with that shape
 SHAPES = {
     "zero": ["zero"],
-    "one": ["one"],
+    "one": ["one", "tail"],
     "two": ["heap", "many"],
     "many": ["many", "big", "heap"],
     "fail": ["rtfail", "assertfail"],
@@ -137,6 +137,17 @@ def err_class(b):
     return ("load", b"")                      # load/verification/connection diagnostics name the file: class only
 
 
+def client_stderr(obs):
+    """stderr of the client proper: a daemon launched lazily by `nano_vm --daemon` inherits the client's stderr and may
+    write its own "[vmd] ..." diagnostics there (e.g. "[vmd] Daemon already running" when two clients raced to launch
+    it); those lines are the daemon's, not the program's error text, and are not compared (they are counted)."""
+    if obs.get("via") != "cli":
+        return obs["stderr"], 0
+    lines = obs["stderr"].split(b"\n")
+    keep = [l for l in lines if not l.startswith(b"[vmd] ")]
+    return b"\n".join(keep), len(lines) - len(keep)
+
+
 def compare_exec(obs, std):
     """differences between what a well-formed client observed and the standalone run (empty list = transparent)"""
     d = []
@@ -148,8 +159,9 @@ def compare_exec(obs, std):
         n = next((i for i in range(min(len(a), len(b))) if a[i] != b[i]), min(len(a), len(b)))
         d.append("stdout differs at byte %d (got %d bytes, standalone %d): got %r, standalone %r" %
                  (n, len(a), len(b), a[max(0, n - 20):n + 40], b[max(0, n - 20):n + 40]))
-    if err_class(obs["stderr"]) != err_class(std["stderr"]):
-        d.append("error text differs: got %r, standalone %r" % (obs["stderr"][:200], std["stderr"][:200]))
+    stderr, _ = client_stderr(obs)
+    if err_class(stderr) != err_class(std["stderr"]):
+        d.append("error text differs: got %r, standalone %r" % (stderr[:200], std["stderr"][:200]))
     if obs["exit"] != std["exit"]:
         d.append("exit status differs: got %r, standalone %r" % (obs["exit"], std["exit"]))
     if obs.get("via") == "raw":
@@ -200,7 +212,7 @@ def concretize(bench, scen, rng, idbase, hostile_variant=None, cli_share=0.5):
     return [clients[o - 1] for o in order]
 
 
-def play_round(bench, dm, groups, rng, workdir):
+def play_round(bench, dm, groups, rng, workdir, sync_payload=False):
     """groups: list of client lists (each from concretize); all groups run concurrently against dm"""
     flat = []
     for g in groups:
@@ -210,7 +222,7 @@ def play_round(bench, dm, groups, rng, workdir):
             cl = dict(cl)
             cl["after"] = pos[cl["after_c"]] if "after_c" in cl else None
             flat.append(cl)
-    obs = V.play(dm, flat, rng, bench.nano_vm, workdir)
+    obs = V.play(dm, flat, rng, bench.nano_vm, workdir, sync_payload=sync_payload)
     return flat, obs
 
 
